@@ -127,7 +127,14 @@ class PopSampler(object):
         return float(m.compute_log_likelihood(
             self.top, row[np.newaxis, :], **self._kw(slice(s, s + 1))))
 
-    def psi_of_row(self, s, row):
+    def psi_of_row(self, s, row, full=None):
+        if full is not None and 'H' not in popbuild.label(self.spec):
+            # the whole sample matrix with every individual's covariates in one
+            # call: row s must not depend on the other rows
+            mat = np.array(full, dtype=float)
+            mat[s] = row
+            return np.asarray(self.model.compute_individual_parameters(
+                self.top, mat, **self._kw()), dtype=float)[s]
         m = popbuild.build(self.spec, None)
         m.set_n_ids(1)
         return np.asarray(m.compute_individual_parameters(
@@ -303,7 +310,7 @@ def w_sampler(case):
                 for dv in (-H, 0.0, H):
                     Sx, _ = run_with(sm, {(st, ix): v + dv})
                     ntr += 1
-                    ps.append(sm.psi_of_row(cell[0], Sx[cell[0]]))
+                    ps.append(sm.psi_of_row(cell[0], Sx[cell[0]], full=Sx))
                 dy = (ps[2][cell[1]] - ps[0][cell[1]]) / (2 * H)
                 covrow = None if sm.cov is None else sm.cov[cell[0]:cell[0] + 1]
                 L = float(np.real(rp.logpop(cen, sm.top, ps[1][np.newaxis, :],
